@@ -14,7 +14,7 @@ NAMES = ['a', 'b', 'c', 'd.txt', 'é', 'sp ace', 'L', 'M', 'k', 'new\nline']
 
 def link_texts(base):
     rel = ['a', './a', 'a//b', 'a/', 'nowhere', '.', '..', 'L', 'M', 'a\\b', '../b', 'a/./b/', './/x///y', 'b/../a', '../R/a', '../outside', '../outside/sub/', '../outside_file',
-           'k', './k/', '../R', 'c/..', '../outside/loop']
+           'k', './k/', '../R', 'c/..', '../outside/loop', 'new\nline', 'tab\there', 'esc\x1b[0m', ' a', 'a ', 'qu"o\'te', 'a/\r/b']
     ab = [base + '/outside', base + '/outside/', base + '/outside_file', base + '/outside/sub/y', base + '//outside/./sub', '/nonexistent-rjv/x', base + '/R/a', base + '/nowhere']
     raw = [b'\xff\xfe', b'a/\xe9', b'/nonexistent-rjv/\xff', b'caf\xe9/x']
     return [t.encode() for t in rel + ab] + raw
